@@ -6,6 +6,7 @@ import (
 	"io"
 	"os"
 	"reflect"
+	"regexp"
 	"runtime"
 	"runtime/debug"
 	"runtime/pprof"
@@ -35,6 +36,8 @@ import (
 func init() {
 	workloads["C10"] = runC10
 }
+
+var c10LastZero = regexp.MustCompile(`(^|[^0-9.eE+\-])-?0$`)
 
 var c10Action int32 // what cat.Stress does during the current call
 var c10Hits int64
@@ -278,6 +281,7 @@ func runC10(c *Ctx) {
 			kind = 2 + r.Intn(2)
 		}
 		var dig []string
+		c10Doc := ""
 		switch kind {
 		case 0, 1:
 			// encode; the callback types half of the time
@@ -314,6 +318,7 @@ func runC10(c *Ctx) {
 				dig = append(dig, "O"+h64(string(out)))
 				keep(&c10Kept{i: i, what: "Marshal", out: out, outSum: gen.HashBytes(out), arg: arg, desc: desc})
 				// and back: the text decoded into a fresh value of the type
+				c10Doc = string(out)
 				d := reflect.New(cs.t)
 				in := append([]byte(nil), out...)
 				var derr error
@@ -345,6 +350,7 @@ func runC10(c *Ctx) {
 			desc := fmt.Sprintf("decode %s %s prefill=%v action=%s pad=%d", trunc(gen.Describe(cs.t), 200), cs.cfg.name, cs.prefill, c10ActionNames[action], pad)
 			c.Cur("case %d %s doc=%s", i, desc, q(cs.doc))
 			c.Vf("CASE %s\nDOC %q", desc, cs.doc)
+			c10Doc = cs.doc
 			d := newDst(cs)
 			in := []byte(cs.doc)
 			var derr error
@@ -366,7 +372,13 @@ func runC10(c *Ctx) {
 			c.Count("decode_cases", 1)
 		}
 		c.Count("action_"+c10ActionNames[action], 1)
-		c.Digest(i, strings.Join(dig, "."))
+		flags := ""
+		if c10Doc != "" && c10LastZero.MatchString(c10Doc) {
+			// known finding B42: a number token 0 / -0 at the very end of the input makes the native
+			// scanner read one byte past the end; what it finds there can change the result
+			flags = " B42"
+		}
+		c.Digest(i, strings.Join(dig, ".")+flags)
 		if i < 6 {
 			c.Sample(fmt.Sprint("kind", kind), 1, map[string]interface{}{"case": i, "digest": strings.Join(dig, ".")})
 		}
